@@ -98,4 +98,64 @@ IsIdentityCode(g) ==
   LET n == Len(g.ins) IN
   /\ Len(g.outs) = n /\ Cardinality(g.vs) = 2 * n
   /\ \A i \in 1..n : ET(g, g.ins[i], g.outs[i]) = "N"
+
+\* ======================= additions: API-coverage gaps #2, #19, #20 (docs/api_audit.md) =======================
+\* ---------- append / plug with an explicit injective naming m of other's vertices (AppendMap is the code's own choice;
+\*            in tag space, Trace_Backends, m is the identity) ----------
+AppendNamed(g, h, m) ==
+  LET h2 == Rename(h, m)
+  IN [g EXCEPT !.vs = g.vs \cup h2.vs, !.ty = h2.ty @@ g.ty, !.ph = h2.ph @@ g.ph, !.vr = h2.vr @@ g.vr,
+               !.et = h2.et @@ g.et, !.sc = RMul(g.sc, h.sc)]
+PlugNamed(g, h, m) ==
+  IF Len(g.outs) # Len(h.ins) THEN [g |-> g, panic |-> TRUE]
+  ELSE LET r == PlugLoop([g |-> AppendNamed(g, h, m), panic |-> FALSE], g.outs, h, m, 1)
+       IN [g |-> [r.g EXCEPT !.outs = [k \in 1..Len(h.outs) |-> m[h.outs[k]]]], panic |-> r.panic]
+
+\* ---------- conditional scalar factors under composition: what the linear-algebra statements need when the
+\*            operands carry parameters (the transcriptions AppendG / Adjoint above do what the code does:
+\*            other's factors are not taken over, factors are not conjugated) ----------
+MergeSF(f, k) == [e \in (DOMAIN f) \cup (DOMAIN k) |->
+                    IF e \in DOMAIN f /\ e \in DOMAIN k THEN RMul(f[e], k[e]) ELSE IF e \in DOMAIN f THEN f[e] ELSE k[e]]
+ConjSF(f) == [e \in DOMAIN f |-> RConj(f[e])]
+NoSF(g) == [g EXCEPT !.sf = <<>>]
+AdjointFull(g) == [Adjoint(g) EXCEPT !.sf = ConjSF(g.sf)]
+JuxtaposeFull(g, h) == [Juxtapose(g, h) EXCEPT !.sf = MergeSF(g.sf, h.sf)]
+
+\* ---------- copy(adjoint) (graph.rs:807-827): as the code does it (vertices and edges only, then adjoint()) and as its
+\*            doc comment says ("a copy of the graph" / "the adjoint of the graph ... inputs and outputs flipped") ----------
+CopyCode(g, adj) == LET c == [g EXCEPT !.ins = <<>>, !.outs = <<>>, !.sc = ROne, !.sf = <<>>] IN IF adj THEN Adjoint(c) ELSE c
+CopySpec(g, adj) == IF adj THEN AdjointFull(g) ELSE g
+
+\* ---------- make_bipartite (graph.rs:829-893): every edge between two Z or two X spiders is replaced by a path through a
+\*            new phase-free spider of the other colour, plain edges (the type of the replaced edge is not looked at);
+\*            nm : replaced edge -> name of the new spider ----------
+SameColour(g) == {e \in DOMAIN g.et : \A u, v \in e : g.ty[u] = g.ty[v] /\ g.ty[u] \in {"Z", "X"}}
+SplitEdge(g, e, n) ==
+  LET u == Min(e)  v == Max(e)
+  IN SetET(SetET(AddV(DelE(g, u, v), n, IF g.ty[u] = "Z" THEN "X" ELSE "Z", 0), u, n, "N"), n, v, "N")
+RECURSIVE SplitAll(_, _, _)
+SplitAll(g, es, nm) == IF es = {} THEN g ELSE LET e == CHOOSE e \in es : TRUE IN SplitAll(SplitEdge(g, e, nm[e]), es \ {e}, nm)
+BipartiteNamed(g, nm) == SplitAll(g, SameColour(g), nm)
+
+\* ---------- subgraph_from_vertices (graph.rs:778-794): data and induced edges, nothing else.  With the boundary lists
+\*            restricted to S it is, for a union S of connected components, that factor of the tensor product ----------
+RestrictTo(g, S) ==
+  [EmptyG EXCEPT !.vs = S, !.ty = [v \in S |-> g.ty[v]], !.ph = [v \in S |-> g.ph[v]], !.vr = [v \in S |-> g.vr[v]],
+                 !.et = [e \in {e \in DOMAIN g.et : e \subseteq S} |-> g.et[e]],
+                 !.ins = SelectSeq(g.ins, LAMBDA v : v \in S), !.outs = SelectSeq(g.outs, LAMBDA v : v \in S)]
+Closed(g, S) == S \subseteq g.vs /\ \A e \in DOMAIN g.et : e \subseteq S \/ e \cap S = {}
+\* ascending positions, in Bnd(g), of the boundaries that lie in S (= the boundary order of RestrictTo(g, S))
+BndPosIn(g, S) == SelectSeq([i \in 1..Len(Bnd(g)) |-> i], LAMBDA i : Bnd(g)[i] \in S)
+\* T (n indices) = sc * (A (x) B), A on the index positions pa and B on the positions pb
+FactorsOK(T, n, sc, A, pa, B, pb) ==
+  \A b \in BIdx(n) : T[b] = RMul(sc, RMul(A[[i \in 1..Len(pa) |-> b[pa[i]]]], B[[i \in 1..Len(pb) |-> b[pb[i]]]]))
+SubgraphSpecOK(g, S) ==
+  Closed(g, S) => FactorsOK(Den(g), Len(Bnd(g)), g.sc, Den(RestrictTo(g, S)), BndPosIn(g, S),
+                            Den(RestrictTo(g, g.vs \ S)), BndPosIn(g, g.vs \ S))
+
+\* ---------- BasisElem::flipped / is_x / is_z / phase ----------
+BFlip(b) == CASE b = "Z0" -> "Z1" [] b = "Z1" -> "Z0" [] b = "X0" -> "X1" [] b = "X1" -> "X0" [] OTHER -> "SKIP"
+InnerB(a, b) == RAdd(RMul(RConj(BasisVec(a)[1]), BasisVec(b)[1]), RMul(RConj(BasisVec(a)[2]), BasisVec(b)[2]))
+\* "flipped" = the other element of the same basis: same basis and orthogonal
+FlipOK(b, f) == IF b = "SKIP" THEN f = "SKIP" ELSE f \in Basis \ {"SKIP"} /\ BIsZ(f) = BIsZ(b) /\ InnerB(b, f) = RZero
 =============================================================================
